@@ -194,6 +194,30 @@ func (s c13Shape) build(i int64) (withH, noH, trimmedSrc, refNoH, refTrimmed str
 	return a.String(), b.String(), c.String(), render(plain), render(trimmed), allFaceText, states
 }
 
+// abbreviateWS replaces long whitespace runs by their length (for readable reports).
+func abbreviateWS(s string) string {
+	var sb strings.Builder
+	run := 0
+	flush := func() {
+		if run > 8 {
+			fmt.Fprintf(&sb, "<%d ws>", run)
+		} else if run > 0 {
+			sb.WriteString(strings.Repeat(" ", run))
+		}
+		run = 0
+	}
+	for _, r := range s {
+		if unicode.IsSpace(r) {
+			run++
+			continue
+		}
+		flush()
+		sb.WriteRune(r)
+	}
+	flush()
+	return sb.String()
+}
+
 func classify(s string) string {
 	switch {
 	case s == "":
@@ -252,6 +276,13 @@ func c13Families(tier string) []explore.Family {
 			shapes = append(shapes, c13Shape{[]int{h, 0}, c13W2, c13W2}, c13Shape{[]int{0, h}, c13W2, c13W2})
 		}
 	}
+	// scaled: very long whitespace runs (around 64..65536) next to every marker of the single-item shapes
+	for _, n := range []int{63, 64, 65, 255, 256, 257, 1023, 1024, 1025, 4095, 4096, 4097, 8191, 8192, 8193, 65535, 65536, 65537} {
+		long := strings.Repeat(" ", n/2) + "\n" + strings.Repeat("\t", n-n/2-1)
+		for _, it := range []int{0, 2, 4, 7} {
+			shapes = append(shapes, c13Shape{[]int{it}, []string{long, "a" + long, long + "a"}, []string{long}})
+		}
+	}
 	var fams []explore.Family
 	for si, sh := range shapes {
 		sh := sh
@@ -260,6 +291,9 @@ func c13Families(tier string) []explore.Family {
 			names = append(names, c13Items[it].name)
 		}
 		name := fmt.Sprintf("%02d:%s/W%d", si, strings.Join(names, "+"), len(sh.outer))
+		if len(sh.outer[0]) > 60 {
+			name = fmt.Sprintf("%02d:%s/long-whitespace-%d", si, strings.Join(names, "+"), len(sh.outer[0]))
+		}
 		fams = append(fams, explore.Family{Name: name, Count: sh.total(), Run: func(i int64, r *explore.Rec) {
 			withH, noH, trimmedSrc, refNoH, refTrimmed, faces, states := sh.build(i)
 			for _, st := range states {
@@ -268,7 +302,12 @@ func c13Families(tier string) []explore.Family {
 			}
 			r.Eval()
 			o := Render(c13.eng, withH, map[string]any{})
-			desc := func() any { return map[string]any{"template": withH, "without_hyphens": noH} }
+			desc := func() any {
+				if len(withH) > 400 {
+					return map[string]any{"template_abbreviated": abbreviateWS(withH), "note": "runs of whitespace are shown as <N ws>"}
+				}
+				return map[string]any{"template": withH, "without_hyphens": noH}
+			}
 			if o.Panic != nil || o.Err != nil {
 				r.Violation("fails", desc(), "output", o.String())
 				return
@@ -291,7 +330,7 @@ func c13Families(tier string) []explore.Family {
 				// (W1) equals the template with hyphens dropped and the adjacent whitespace deleted
 				r.Class("W1")
 				if o.Out != refTrimmed {
-					r.Violation("W1:adjacent-whitespace-exactly", desc(), fmt.Sprintf("%q", refTrimmed), fmt.Sprintf("%q", o.Out))
+					r.Violation("W1:adjacent-whitespace-exactly", desc(), abbreviateWS(fmt.Sprintf("%q", refTrimmed)), abbreviateWS(fmt.Sprintf("%q", o.Out)))
 					return
 				}
 				// and the implementation agrees with itself on the rewritten template (the statement's own wording)
@@ -315,7 +354,7 @@ func init() {
 	explore.Register(&explore.Prop{
 		ID:    "C13",
 		Level: "model_checking",
-		Rule: "skeletons of 1-2 (quick) / 1-3 (thorough) tag items from {object, assign, if, if/else, for, comment, raw, capture+print} separated and surrounded by text pieces from W (quick 4, thorough 7 pieces for single items; 2-3 pieces for pairs/triples), block bodies filled the same way; for every skeleton ALL 2^k subsets of its k<=12 hyphen positions are rendered; " +
+		Rule: "skeletons of 1-2 (quick) / 1-3 (thorough) tag items from {object, assign, if, if/else, for, comment, raw, capture+print} separated and surrounded by text pieces from W (quick 4, thorough 7 pieces for single items; 2-3 pieces for pairs/triples), block bodies filled the same way; plus single items surrounded by whitespace runs of 63..65537 characters (18 lengths around powers of two); for every skeleton ALL 2^k subsets of its k<=12 hyphen positions are rendered; " +
 			"oracle = token-level reference trimmer (W1, when every hyphen faces non-empty literal text on the taken path), whitespace-erasure equality (W2, always), identity without hyphens (W0); " +
 			"state = (previous tag has right hyphen, next tag has left hyphen, class of the text piece between); transition = one (text piece, neighbouring markers) configuration rendered",
 		Assumptions: []string{
